@@ -84,6 +84,12 @@ def run(ctx):
     quick = ctx.tier == "quick"
     rnd = random.Random(ctx.seed)
     ctx.add_tlc(core.tlc_or_die(ctx.workdir, "GroupModel", model_cfg([5, 7], 40 if quick else 120), tag="grp", timeout=3000))
+    # (M) design layer: NAF recoding, NAF loop, table construction + signed-digit table loop and the interleaved mul_add loop
+    # (Jacobi.tla) refine the k-fold sum / a P + b Q on every curve over the small fields
+    jcfg = ("INIT Init\nNEXT Next\nCHECK_DEADLOCK FALSE\nCONSTANTS Primes = {%s}\n MaxK = %d\n MaxAB = %d\n ReduceHR = TRUE\n"
+            "INVARIANT NafFacts\nINVARIANT MulNafRefines\nINVARIANT MulTableRefines\nINVARIANT MulAddRefines\n")
+    ctx.add_tlc(core.tlc_or_die(ctx.workdir, "JacobiModel", jcfg % (("5, 7", 24, 7) if quick else ("5, 7, 11", 40, 12)),
+                                tag="jacmul", timeout=3000))
     jobs = []
     plan = ["T23", "T43", "T263", "Th4c"] if quick else ["T23", "T43", "T29", "T41", "T263", "T257", "T251", "Th2", "Th4", "Th4c"]
     for cid in plan:
